@@ -121,6 +121,8 @@ type Byz struct {
 	faulted      []int  // receivers whose private share was omitted / replaced / malformed (the injector prefers them)
 	torsionFor   int    // >= 0: torsion-cancelling vector attack aimed at this participant
 	torsionFermat bool  // A_p + T, A_{p+12} - T with ord(T) = 13 (see setup)
+	resendFor    int    // >= 0: resend template aimed at this receiver (see emit)
+	planned      []*Msg // template steps still to be sent as unsolicited actions
 	bias         map[string]int // swarm: message kind -> action this participant prefers in this run (1 omit .. 6 hold back)
 	floor        int // broadcasts never land in an earlier round than a previous one of the same sender
 	crashAt      int // event count at which the participant crash-stops (0 = never)
